@@ -4,10 +4,10 @@ CONSTANTS
   Ids = {"s1"}
   MaxCalls = 2
   MapsLocked = TRUE
-  SessLocked = FALSE
+  SessLocked = TRUE
   OldDelete = FALSE
   StepGuard = TRUE
   NilGuard = TRUE
-  WithClose = FALSE
+  WithClose = TRUE
   defaultInitValue = 0
-INVARIANTS NoConflict_ingesters NoConflict_cancels NoNilCancel StepNotStuck LockDiscipline
+INVARIANTS NoConflict NoConflict_ingesters NoConflict_cancels NoConflict_state NoConflict_report NoNilCancel StepNotStuck LockDiscipline
